@@ -256,7 +256,7 @@ def fragment_order_perms(g, rng, limit=4):
     """renumberings (label a -> perm[a]) that list the connected components of g in other orders, each component en bloc (atoms
     inside a component shuffled): whatever a pipeline does fragment by fragment must not depend on where a fragment stands"""
     comps = [sorted(c) for c in nx.connected_components(g)]
-    if not 2 <= len(comps) <= 40:
+    if not 2 <= len(comps) <= 2000:
         return []
     orders = []
     if len(comps) <= 4:
